@@ -3,7 +3,8 @@
 domain : 1-3 simulated terminals with random process-data layouts (FMMU and
          direct addressing), a device reading one input variable and writing
          one output variable and two output bits of one byte (in either
-         order) each cycle; the real SyncGroup.run() over the
+         order) each cycle; in a third of the cases the group ran and was
+         cancelled once before on the same objects; the real SyncGroup.run() over the
          frame-level bus on virtual time for 4-8 cycles; per cycle a generated
          input value, output value, frame latency and working-counter errors
          (drawn from what a bus with these terminals can produce).
@@ -63,8 +64,13 @@ def case_strategy(draw):
     # two single-bit outputs in one byte, set every cycle
     b0 = draw(st.integers(0, 7))
     b1 = draw(st.integers(0, 7).filter(lambda b: b != b0))
-    terms[to]["out"].append({"name": "rb0", "size": b0, "via": "packet"})
-    terms[to]["out"].append({"name": "rb1", "size": b1, "via": "packet"})
+    # (declared by position, or as bit n of a mapped byte / word)
+    for name, b in (("rb0", b0), ("rb1", b1)):
+        v = {"name": name, "size": b,
+             "via": draw(st.sampled_from(["packet", "override"]))}
+        if v["via"] == "override":
+            v["mapped"] = draw(st.sampled_from("BH"))
+        terms[to]["out"].append(v)
     ncyc = draw(st.integers(4, 8))
     cycles = []
     for _ in range(ncyc + 1):
@@ -97,7 +103,8 @@ def case_strategy(draw):
             # the group must fail instead of driving the others on
             # (one of the terminals the device uses)
             "refuse": draw(st.none() | st.none() | st.none()
-                           | st.sampled_from([ti, to]))}
+                           | st.sampled_from([ti, to])),
+            "second_life": draw(st.sampled_from([False, False, True]))}
 
 
 def strategy(tier):
@@ -144,10 +151,11 @@ def run_case(case):
         ebmod.monotonic = loop.time
         cyc = {"n": 0}
         tx = {"n": 0}
+        cur = {"index": 1000}
 
         def on_frame(no, frame):
             idx, = struct.unpack_from("<I", frame, 4)
-            if idx != 1000:
+            if idx != cur["index"]:
                 return
             k = cyc["n"]
             cyc["n"] += 1
@@ -164,7 +172,7 @@ def run_case(case):
 
         def fault(no, frame):
             idx, = struct.unpack_from("<I", frame, 4)
-            if idx != 1000:
+            if idx != cur["index"]:
                 return {}
             tx["n"] += 1
             if tx["n"] - 1 in case.get("lose", ()):
@@ -192,6 +200,32 @@ def run_case(case):
         for t in sg.terminals:
             t.fmmu_used = [None] * 4
         task = sg.start()
+        if case.get("second_life") and case.get("refuse") is None:
+            # the group ran before: two updates, cancelled, started again on
+            # the same objects; only the second life is judged
+            for _ in range(4000):
+                await asyncio.sleep(0.001)
+                if len(dev.seen) >= 2 or task.done():
+                    break
+            task.cancel()
+            try:
+                await task
+            except asyncio.CancelledError:
+                pass
+            except Exception as e:
+                hist["end"] = f"first life: {type(e).__name__}: {e}"
+                return
+            del rig.frames[:], rig.transport.sent[:], dev.seen[:], \
+                dev.errors[:]
+            rig.applied.clear()
+            cyc["n"] = tx["n"] = 0
+            dev.script = [c["output"] for c in cycles]
+            if dev.bits:
+                dev.bits = [list(c.get("bits") or [False, False, False])
+                            for c in cycles]
+            task = sg.start()
+            cur["index"] = sg.packet_index
+        hist["index"] = cur["index"]
         hist["rig"], hist["dev"], hist["sg"] = rig, dev, sg
         for _ in range(4000):
             await asyncio.sleep(0.001)
@@ -214,7 +248,9 @@ def run_case(case):
     finally:
         ebmod.monotonic = real_mono
 
-    classes = [f"terminals={len(case['terminals'])}", f"cycles={ncyc}"]
+    classes = [f"terminals={len(case['terminals'])}", f"cycles={ncyc}"] + (
+        ["second-life"] if case.get("second_life")
+        and case.get("refuse") is None else [])
 
     def fail(what):
         return dict(ok=False, nontrivial=True, classes=classes,
@@ -245,11 +281,11 @@ def run_case(case):
         return fail(f"the group task ended as '{hist['end']}' after "
                     f"{len(dev.seen)} updates")
     cyclic_nos = [no for no, (s, r) in enumerate(rig.frames)
-                  if struct.unpack_from("<I", s, 4)[0] == 1000]
+                  if struct.unpack_from("<I", s, 4)[0] == hist["index"]]
     cyclic_frames = [rig.frames[no] for no in cyclic_nos]
     # a lost transmission is repeated unchanged after the time-out
     sent = [f for f in rig.transport.sent
-            if struct.unpack_from("<I", f, 4)[0] == 1000]
+            if struct.unpack_from("<I", f, 4)[0] == hist["index"]]
     for i in case.get("lose", ()):
         if i + 1 < len(sent) and sent[i + 1] != sent[i]:
             diff = [j for j in range(min(len(sent[i]), len(sent[i + 1])))
